@@ -4,39 +4,46 @@ From V.C08 Require Import Model Spec ProofsIface ProofsClass ProofsDispatch.
 Lemma wf_parts t : wf t = true -> closed t = true /\ acyclic t = true /\ kinds_ok t = true.
 Proof. unfold wf. intros H. apply andb_true_iff in H. destruct H as [H H3]. apply andb_true_iff in H. tauto. Qed.
 
-Lemma is_ab_is_a_w t n c T : wf t = true -> get_class t n = Some c -> (is_ab t n T = true <-> is_a t n T).
-Proof. intros W Hn. destruct (wf_parts t W) as (H1 & H2 & _). exact (is_ab_is_a_l t H1 H2 n c T Hn). Qed.
+Lemma is_ab_is_a_w t n c T : closed t = true -> acyclic t = true -> get_class t n = Some c -> (is_ab t n T = true <-> is_a t n T).
+Proof. intros H1 H2 Hn. exact (is_ab_is_a_l t H1 H2 n c T Hn). Qed.
 
-Lemma walk_reach t n c T (w : outcome bool) : wf t = true -> get_class t n = Some c ->
+Lemma walk_reach t n c T (w : outcome bool) : closed t = true -> acyclic t = true -> get_class t n = Some c ->
   w = Ok (is_ab t n T) -> exists b, w = Ok b /\ (b = true <-> is_a t n T).
-Proof. intros W Hn E. exists (is_ab t n T). split; [assumption|]. exact (is_ab_is_a_w t n c T W Hn). Qed.
+Proof. intros H1 H2 Hn E. exists (is_ab t n T). split; [assumption|]. exact (is_ab_is_a_w t n c T H1 H2 Hn). Qed.
 
-Lemma class_is_reach_l t n c T : wf t = true -> get_class t n = Some c ->
+Lemma class_is_reach_l t n c T : closed t = true -> acyclic t = true -> get_class t n = Some c ->
   exists b, class_is t T n c = Ok b /\ (b = true <-> is_a t n T).
-Proof. intros W Hn. destruct (wf_parts t W) as (H1 & H2 & _). apply (walk_reach t n c T _ W Hn). exact (class_is_b t H2 T n c Hn). Qed.
-Lemma this_is_reach_l t n c T : wf t = true -> get_class t n = Some c ->
+Proof. intros H1 H2 Hn. apply (walk_reach t n c T _ H1 H2 Hn). exact (class_is_b t H2 T n c Hn). Qed.
+Lemma this_is_reach_l t n c T : closed t = true -> acyclic t = true -> get_class t n = Some c ->
   exists b, this_is t T n c = Ok b /\ (b = true <-> is_a t n T).
-Proof. intros W Hn. destruct (wf_parts t W) as (H1 & H2 & _). apply (walk_reach t n c T _ W Hn). exact (this_is_b t H2 T n c Hn). Qed.
-Lemma instanceof_reach_l t n c T : wf t = true -> get_class t n = Some c ->
+Proof. intros H1 H2 Hn. apply (walk_reach t n c T _ H1 H2 Hn). exact (this_is_b t H2 T n c Hn). Qed.
+Lemma instanceof_reach_l t n c T : closed t = true -> acyclic t = true -> get_class t n = Some c ->
   exists b, instanceof t n c T = Ok b /\ (b = true <-> is_a t n T).
-Proof. intros W Hn. destruct (wf_parts t W) as (H1 & H2 & _). apply (walk_reach t n c T _ W Hn). exact (instanceof_b t H1 H2 n c T Hn). Qed.
+Proof. intros H1 H2 Hn. apply (walk_reach t n c T _ H1 H2 Hn). exact (instanceof_b t H1 H2 n c T Hn). Qed.
 
-Lemma catch_reach_l t n c T : wf t = true -> get_class t n = Some c -> T <> "Throwable" ->
+Lemma catch_reach_l t n c T : closed t = true -> acyclic t = true -> get_class t n = Some c -> T <> "Throwable" ->
   exists b, catch_matches t T n c = Ok b /\ (b = true <-> is_a t n T).
 Proof.
-  intros W Hn HT. destruct (wf_parts t W) as (H1 & H2 & _). apply (walk_reach t n c T _ W Hn).
+  intros H1 H2 Hn HT. apply (walk_reach t n c T _ H1 H2 Hn).
   unfold catch_matches. rewrite (class_is_b t H2 T n c Hn).
   apply String.eqb_neq in HT. rewrite HT. destruct (is_ab t n T); reflexivity.
 Qed.
-Lemma catch_throwable_l t n c : wf t = true -> get_class t n = Some c ->
+Lemma catch_throwable_l t n c : closed t = true -> acyclic t = true -> get_class t n = Some c ->
   exists b, catch_matches t "Throwable" n c = Ok b /\
             (b = true <-> is_a t n "Throwable" \/ is_a t n "Exception" \/ is_a t n "Error").
 Proof.
-  intros W Hn. destruct (wf_parts t W) as (H1 & H2 & _).
+  intros H1 H2 Hn.
   exists (is_ab t n "Throwable" || (is_ab t n "Exception" || is_ab t n "Error")). split.
   - unfold catch_matches. rewrite !(class_is_b t H2 _ n c Hn). simpl.
     destruct (is_ab t n "Throwable"); [reflexivity|]. simpl. destruct (is_ab t n "Exception"); reflexivity.
-  - rewrite !orb_true_iff, !(is_ab_is_a_w t n c _ W Hn). tauto.
+  - rewrite !orb_true_iff, !(is_ab_is_a_w t n c _ H1 H2 Hn). tauto.
+Qed.
+Lemma catch_union_l t n c T1 T2 : closed t = true -> acyclic t = true -> get_class t n = Some c ->
+  exists b, catch_union t T1 T2 n c = Ok b /\ (b = true <-> is_a t n T1 \/ is_a t n T2).
+Proof.
+  intros H1 H2 Hn. exists (is_ab t n T1 || is_ab t n T2). split.
+  - unfold catch_union. rewrite !(class_is_b t H2 _ n c Hn). destruct (is_ab t n T1); reflexivity.
+  - rewrite orb_true_iff, !(is_ab_is_a_w t n c _ H1 H2 Hn). tauto.
 Qed.
 
 Lemma lookup_most_derived_l t n c m : wf t = true -> get_class t n = Some c ->
@@ -80,3 +87,13 @@ Lemma parent_then_parent_l t r c f g h d p e p' : wf t = true -> get_class t r =
   resolve t r f = Some d -> parent_of t d = Some p -> resolve t p g = Some e -> parent_of t e = Some p' ->
   via_parent_parent t r f g h = Ok (resolve t p' h).
 Proof. intros W Hr. destruct (wf_parts t W) as (H1 & H2 & H3). exact (via_parent_parent_l t H1 H2 H3 r c f g h d p e p' Hr). Qed.
+
+Lemma sentry_self_l t c cc f s : closed t = true -> acyclic t = true -> get_class t c = Some cc -> static_name t f = true -> static_name t s = true ->
+  via_sentry_self t c f s = Ok (match resolve t c f with Some d => resolve t d s | None => None end).
+Proof. intros H1 H2 Hc. exact (via_sentry_self_l t H1 H2 c cc f s Hc). Qed.
+Lemma sentry_static_l t c cc f s : closed t = true -> acyclic t = true -> get_class t c = Some cc -> static_name t f = true -> static_name t s = true ->
+  via_sentry_static t c f s = Ok (match resolve t c f with Some _ => resolve t c s | None => None end).
+Proof. intros H1 H2 Hc. exact (via_sentry_static_l t H1 H2 c cc f s Hc). Qed.
+Lemma sentry_parent_l t c cc f g d p : closed t = true -> acyclic t = true -> get_class t c = Some cc -> static_name t f = true ->
+  resolve t c f = Some d -> parent_of t d = Some p -> via_sentry_parent t c f g = Ok (resolve t p g).
+Proof. intros H1 H2 Hc. exact (via_sentry_parent_l t H1 H2 c cc f g d p Hc). Qed.
